@@ -180,7 +180,12 @@ func (g *G) postfix() {
 			g.p("]")
 		case 6:
 			g.p(".")
-			g.id()
+			if g.opt() {
+				// directly after "." a reserved keyword is a field name
+				g.emit(Tok{Text: "select", Class: ID, Val: "select"})
+			} else {
+				g.id()
+			}
 		}
 		accessible = true
 	}
